@@ -36,6 +36,9 @@ def extras():
         {"k": "struct", "name": "SetIn", "fields": [F(1, "default", T("set", T("In")), "s")]},
         {"k": "struct", "name": "MapL", "fields": [F(1, "default", T("map", T("string"), T("list", T("i32"))), "m")]},
         {"k": "struct", "name": "MapS", "fields": [F(1, "default", T("map", T("i32"), T("In")), "m")]},
+        {"k": "struct", "name": "SetL", "fields": [F(1, "default", T("set", T("list", T("i32"))), "s"),
+                                                   F(2, "default", T("set", T("map", T("string"), T("i32"))), "sm")]},
+        {"k": "struct", "name": "LL", "fields": [F(1, "default", T("list", T("In")), "a"), F(2, "default", T("list", T("In")), "b")]},
     ]
 
 
@@ -113,13 +116,13 @@ def run(ctx, args):
             cls = c02.shape_class(sc, c["s"])
             ctx.count(1, "pair eq=%s %s" % (c["eq"], cls))
             x = r.get("x") or {}
-            exp = {"xy": c["eq"], "yx": c["eq"], "xx": True, "xx2": True, "x_nil": False, "nil_x": False, "nil_nil": True}
+            exp = {"xy": c["eq"], "yx": c["eq"], "xys": c["eq"], "ysx": c["eq"], "xx": True, "xx2": True, "x_nil": False, "nil_x": False, "nil_nil": True}
             bad = {n: x.get(n) for n in exp if x.get(n) != exp[n]}
             if bad:
                 kind2 = "panic" if any(isinstance(v, str) for v in bad.values()) else "verdict"
-                if set(bad) <= {"xx2", "xy", "yx"} and all(exp[n] for n in bad):
+                if set(bad) <= {"xx2", "xy", "yx", "xys", "ysx"} and all(exp[n] for n in bad):
                     relation = "equal-by-value-distinct-pointers"   # reported unequal although equal by value
-                elif set(bad) & {"xy", "yx"}:
+                elif set(bad) & {"xy", "yx", "xys", "ysx"}:
                     relation = "different-reported-equal" if not c["eq"] else "mixed"
                 else:
                     relation = "self/nil"
@@ -155,5 +158,7 @@ def run(ctx, args):
         rule="all pairs among the first %d values (TLC order) of each struct-like of the C02 universe + struct-keyed / "
              "struct-element / container-valued maps and sets; set write cases incl. duplicate elements; "
              "distinct class = (pair verdict | set writability, struct kind, requiredness, type shape)" % pv,
-        assumptions=["NaN excluded from pairs", "x and y are built independently: no shared pointers"],
+        assumptions=["NaN excluded from pairs",
+                     "x and y are built independently; a third object holds y's value but shares with x every struct "
+                     "pointer whose value is equal (shallow-copy-then-update aliasing)"],
         trusted=["harness pkg/drv Build", "TLC"])
